@@ -218,29 +218,53 @@ def castles (g : Game) (all : BB) : List Move :=
 
 end Gen
 
+/-- the check mask of `generate_captures`: everything when not in check, otherwise the checker and the
+squares between it and the king -/
+def checkMaskFor (checkers : BB) (king : Sq) (n : Nat) : Option BB :=
+  if n == 1 then do
+    let c ← BB.lsbSq? checkers
+    pure (between c king ||| checkers)
+  else pure BB.full
+
+/-- `generate_captures` once king, checkers and check mask are known (at most one checker) -/
+def capturesWith (g : Game) (king : Sq) (checkers checkMask : BB) : Option (List Move × MovegenCache) := do
+  let all := g.board.occupancy
+  let theirs := g.board.occFor g.player.other
+  let (orthPins, diagPins) := getPins g.board g.player king
+  let cache : MovegenCache := { checkers, checkMask, orthPins, diagPins }
+  let p ← Gen.pawnCaptures g (g.board.pawnsOf g.player) king theirs all checkMask orthPins diagPins
+  let ms := p
+    ++ Gen.knightCaptures (g.board.knightsOf g.player) theirs checkMask orthPins diagPins
+    ++ Gen.diagSliderCaptures (g.board.diagSliders g.player) theirs all checkMask orthPins diagPins
+    ++ Gen.orthSliderCaptures (g.board.orthSliders g.player) theirs all checkMask orthPins diagPins
+    ++ Gen.kingCaptures g king theirs
+  pure (ms, cache)
+
 /-- `generate_captures` (`king(..).single()` on a board without a king ⇒ `none`) -/
 def generateCaptures (g : Game) : Option (List Move × MovegenCache) := do
-  let all := g.board.occupancy
   let theirs := g.board.occFor g.player.other
   let king ← BB.lsbSq? (g.board.kingOf g.player)
   let checkers := attackersOf g.board g.player king
   let n := BB.count checkers
   if n > 1 then
     pure (Gen.kingCaptures g king theirs, { checkers })
-  else
-    let checkMask ← (if n == 1 then do
-        let c ← BB.lsbSq? checkers
-        pure (between c king ||| checkers)
-      else pure BB.full)
-    let (orthPins, diagPins) := getPins g.board g.player king
-    let cache : MovegenCache := { checkers, checkMask, orthPins, diagPins }
-    let p ← Gen.pawnCaptures g (g.board.pawnsOf g.player) king theirs all checkMask orthPins diagPins
-    let ms := p
-      ++ Gen.knightCaptures (g.board.knightsOf g.player) theirs checkMask orthPins diagPins
-      ++ Gen.diagSliderCaptures (g.board.diagSliders g.player) theirs all checkMask orthPins diagPins
-      ++ Gen.orthSliderCaptures (g.board.orthSliders g.player) theirs all checkMask orthPins diagPins
-      ++ Gen.kingCaptures g king theirs
-    pure (ms, cache)
+  else do
+    let checkMask ← checkMaskFor checkers king n
+    capturesWith g king checkers checkMask
+
+/-- `generate_quiets` with at most one checker -/
+def quietsWith (g : Game) (king : Sq) (cache : MovegenCache) : Moves := do
+  let all := g.board.occupancy
+  let checkMask := cache.checkMask
+  let orthPins := cache.orthPins
+  let diagPins := cache.diagPins
+  let p ← Gen.pawnQuiets g (g.board.pawnsOf g.player) all checkMask orthPins diagPins
+  let ms := p
+    ++ Gen.knightQuiets (g.board.knightsOf g.player) all checkMask orthPins diagPins
+    ++ Gen.diagSliderQuiets (g.board.diagSliders g.player) all checkMask orthPins diagPins
+    ++ Gen.orthSliderQuiets (g.board.orthSliders g.player) all checkMask orthPins diagPins
+    ++ Gen.kingQuiets g king all
+  pure (ms ++ (if cache.checkers == 0#64 then Gen.castles g all else []))
 
 /-- `generate_quiets` -/
 def generateQuiets (g : Game) (cache : MovegenCache) : Moves := do
@@ -249,17 +273,7 @@ def generateQuiets (g : Game) (cache : MovegenCache) : Moves := do
   let n := BB.count cache.checkers
   if n > 1 then
     pure (Gen.kingQuiets g king all)
-  else
-    let checkMask := cache.checkMask
-    let orthPins := cache.orthPins
-    let diagPins := cache.diagPins
-    let p ← Gen.pawnQuiets g (g.board.pawnsOf g.player) all checkMask orthPins diagPins
-    let ms := p
-      ++ Gen.knightQuiets (g.board.knightsOf g.player) all checkMask orthPins diagPins
-      ++ Gen.diagSliderQuiets (g.board.diagSliders g.player) all checkMask orthPins diagPins
-      ++ Gen.orthSliderQuiets (g.board.orthSliders g.player) all checkMask orthPins diagPins
-      ++ Gen.kingQuiets g king all
-    pure (ms ++ (if cache.checkers == 0#64 then Gen.castles g all else []))
+  else quietsWith g king cache
 
 /-- `generate_legal_moves` (`MoveList` holds at most 218 moves; pushing more panics) -/
 def generateLegal (g : Game) : Moves := do
